@@ -173,6 +173,104 @@ def slim(st):
 
 
 # ---------------------------------------------------------------- instantiation of TLC states
+DESCENDANT = r"""
+import os, signal, sys, termios
+signal.signal(signal.SIGHUP, signal.SIG_IGN)
+a = termios.tcgetattr(0)
+a[3] &= ~(termios.ECHO | termios.ICANON | termios.ISIG | termios.IEXTEN)
+a[1] &= ~termios.OPOST
+a[0] &= ~(termios.ICRNL | termios.IXON | termios.INLCR | termios.IGNCR | termios.ISTRIP)
+a[6][termios.VMIN] = 1
+a[6][termios.VTIME] = 0
+termios.tcsetattr(0, termios.TCSANOW, a)
+if os.fork():
+    os._exit(0)                      # the process pexpect started is gone; its descendant keeps the terminal
+out = os.open(sys.argv[1], os.O_WRONLY | os.O_APPEND)
+os.write(out, b"READER %d\n" % os.getpid())
+while True:
+    d = os.read(0, 65536)
+    if not d:
+        break
+    os.write(out, d.hex().encode() + b"\n")
+"""
+
+
+def probe_descendant_reader(mode):
+    """PeerGotExactly when the process pexpect started has exited (and pexpect knows) but a descendant still holds the
+    terminal and reads it - the shape of `ssh -f`, a daemonising launcher: what the send family is handed still reaches
+    whoever reads the pty, and the return values say so.  Returns [(clause, detail)]."""
+    import signal, tempfile, time
+    from ..sendlog_world import ENCODING
+    enc = ENCODING[mode]
+    T = api_type(mode)
+    conv = (lambda b: b.decode(enc)) if T is str else (lambda b: b)
+    d = tempfile.mkdtemp(prefix='verif-desc-')
+    script, report = os.path.join(d, 'child.py'), os.path.join(d, 'report')
+    open(script, 'w').write(DESCENDANT)
+    open(report, 'w').close()
+    bad, reader, c = [], None, None
+
+    def got(n_expected, timeout=5.0):
+        end = time.time() + timeout
+        while True:
+            lines = open(report, 'rb').read().split(b'\n')[1:]
+            data = b''.join(bytes.fromhex(l.decode()) for l in lines if l)
+            if len(data) >= n_expected or time.time() > end:
+                return data
+            time.sleep(0.005)
+    try:
+        c = pexpect.spawn(sys.executable, [script, report], timeout=10, encoding=enc)
+        c.delaybeforesend = None
+        end = time.time() + 10
+        while not open(report, 'rb').read().startswith(b'READER') and time.time() < end:
+            time.sleep(0.005)
+        head = open(report, 'rb').read().split(b'\n')[0].split()
+        if len(head) < 2:
+            raise tlc.TLCError('descendant reader did not start')
+        reader = int(head[1])
+        end = time.time() + 10
+        while c.isalive() and time.time() < end:
+            time.sleep(0.005)
+        if c.isalive():
+            raise tlc.TLCError('the started process did not exit')
+        want = b''
+        text = 'caf\u00e9 \u20ac' if T is str else b'caf\xe9 \xff\x00'
+        enc_b = (lambda v: v.encode(enc)) if T is str else (lambda v: v)
+        for op, arg in (('send', conv(b'alpha ') + text), ('sendline', conv(b'beta')), ('write', conv(b'gam')),
+                        ('writelines', [conv(b'ma'), conv(b' '), text]), ('send', conv(b'x' * 3000))):
+            try:
+                ret = getattr(c, op)(arg)
+            except Exception as e:
+                bad.append(('C08:peer-bytes', {'op': op, 'raised': '%s: %s' % (type(e).__name__, e), 'note': 'the started process has exited, a descendant reads the pty'}))
+                break
+            piece = b''.join(enc_b(x) for x in arg) if op == 'writelines' else enc_b(arg)
+            if op == 'sendline':
+                piece += os.linesep.encode()
+            want += piece
+            have = got(len(want))
+            if have != want:
+                bad.append(('C08:peer-bytes', {'op': op, 'peer_got_bytes': len(have), 'handed_over_bytes': len(want),
+                                               'note': 'the started process has exited (isalive() is False), a descendant still reads the pty'}))
+                break
+            if op in ('send', 'sendline') and ret != len(piece):
+                bad.append(('C08:return-value', {'op': op, 'returned': ret, 'bytes_written': len(piece)}))
+                break
+    finally:
+        if c is not None:
+            try:
+                c.close(force=True)
+            except Exception:
+                pass
+        if reader:
+            try:
+                os.kill(reader, signal.SIGKILL)
+            except OSError:
+                pass
+        import shutil
+        shutil.rmtree(d, ignore_errors=True)
+    return bad
+
+
 def probe_popen_read_error(mode):
     """LogTypeIsApiType on an execution in which the pipe read of PopenSpawn's reader thread fails
     (fault injected at the os.read of pexpect.popen_spawn): whatever happens, only values of the
@@ -929,6 +1027,18 @@ def run(ctx):
         for clause, detail in probe_popen_read_error(m):
             ctx.fail(clause, {'probe': 'popen-read-error', 'mode': m}, detail=detail,
                      signature={'transport': 'popen', 'kind': 'popen', 'mode': m, 'op': 'read-error', 'phase': 'normal', 'log': 'all'})
+    ndesc = 0
+    for m in ('bytes', 'utf8'):
+        for attempt in (1, 2, 3):
+            res_ = probe_descendant_reader(m)
+            if not res_:
+                break
+        ndesc += 1
+        for clause, detail in res_:
+            ctx.fail(clause, {'probe': 'descendant-reader', 'mode': m}, detail=detail,
+                     signature={'transport': 'pty', 'kind': 'pty', 'mode': m, 'op': detail.get('op', '?'), 'phase': 'started-process-gone', 'log': 'none'})
+    ctx.note('%d sessions in which the started process has exited and a descendant still reads the pty: send / sendline / write / writelines '
+             'still deliver everything (bytes and unicode)' % ndesc)
     any_fail = bool(broken) or any(f.clause.startswith(pid) for f in ctx.failures)
     if not any_fail and stats['steps'] < stats['planned']:
         raise tlc.TLCError('only %d of %d planned steps were replayed' % (stats['steps'], stats['planned']))
@@ -1187,6 +1297,11 @@ def replay(ctx):
     os.chdir(ctx.work)
     d = json.load(open(ctx.replay))
     c = d['case']
+    if c.get('probe') == 'descendant-reader':
+        for clause, detail in probe_descendant_reader(c['mode']):
+            if clause.startswith(OWNER[ctx.pid]):
+                ctx.fail(clause, c, detail=detail, signature=d.get('signature'))
+        return common.conclude(ctx)[0]
     if c.get('probe') == 'popen-read-error':
         for clause, detail in probe_popen_read_error(c['mode']):
             if clause.startswith(OWNER[ctx.pid]):
